@@ -8,7 +8,9 @@
  3 correspond  generated XML models -> real parse_XML_buffer + get_supported_methods()  vs  Lean model on the abstract
                document extracted from the real Document (harness/c17.cpp)                              (tie C)
  4 search      direct oracle: Spec computed by the generator from what it wrote (independent of harness and model)
-               vs the real verdict; metamorphic runs (declaration order, never-instantiated templates);
+               vs the real verdict, on random models and on enumerated placements (a restricting conjunct at every position among
+               benign conjuncts of every form; every order of names x separators of the system line: directed_models);
+               metamorphic runs (declaration order, never-instantiated templates);
                every placement of the computed exception set is replayed on the real library with a directed witness
 """
 import json
@@ -60,7 +62,10 @@ REL = ["<", "<=", "==", "!=", ">=", ">"]
 CLOCKS = ["x", "y", "xs[0]", "xs[1]", "h"]
 FPS = ["1.5", "d", "K", "2.5", "d + 0.5", "2 * 1.5", "e"]
 BENIGN_GUARD = ["i == 0", "x < 3", "x >= 1", "b", "j != 1", "x - y < 2", "y <= N", "i < j", "x > 0", "!b", "true"]
-BENIGN_INV = ["x <= 5", "i == 0", "y < 7", "x' == 1", "y' == 0", "h' == 3", "x' == i", "0 == y'", "h' == 2.5", "x - y <= 3", "b"]
+BENIGN_INV = ["x <= 5", "i == 0", "y < 7", "x' == 1", "y' == 0", "h' == 3", "x' == i", "0 == y'", "h' == 2.5", "x - y <= 3", "b",
+              # quantified conjuncts (a quantifier extends to the end of the label, hence the parentheses): the type checker takes an
+              # invariant apart conjunct by conjunct and enters a quantified rate condition on the way; what follows it still counts
+              "(forall (k : int[0,1]) xs[k]' == 0)", "(forall (k : int[0,1]) xs[k]' == 1)", "(forall (k : int[0,1]) xs[k] <= 7)"]
 BENIGN_UPD = ["i = 1", "x = 0", "h = 2.0", "b = true", "j = i + 1", "y = N", "i++", "h = d", "xs[0] = 0", "j = 0"]
 
 
@@ -231,11 +236,14 @@ def gen_model(r):
         else:
             names.append(t["name"])
     r.shuffle(names)
-    sep = ", "
+    seps = [", "] * (len(names) - 1)
     if len(names) > 1 and r.random() < 0.08:
-        sep = " < "
+        # one `<` anywhere on the system line is a priority order, whatever the other separators and the names are
+        seps = [r.choice([", ", " < "]) for _ in seps]
+        if " < " not in seps:
+            seps[r.randrange(len(seps))] = " < "
         truth["prio"] = True
-    system = " ".join(sysdecl) + " system " + sep.join(names) + ";"
+    system = " ".join(sysdecl) + " system " + names[0] + "".join(sp + nm for sp, nm in zip(seps, names[1:])) + ";"
     order = list(range(nt))
     r.shuffle(order)
     m = {"gdecl": gdecl, "templates": [templates[k] for k in order], "system": system}
@@ -306,6 +314,37 @@ def witnesses():
     return W
 
 
+def directed_models(r, thorough):
+    """models with a known Spec that are judged like the random ones (-> [(model, truth)]): the statement quantifies over placements
+    ("any conjunct position", "the order of declarations does not affect the verdict"), so the placements are enumerated, not sampled.
+      * a restricting invariant conjunct at every position among benign conjuncts of every form (bounds, rates 0 / 1, hybrid rates,
+        quantified bounds and quantified rate conditions): each conjunct is judged on its own, whatever stands before or after it
+      * system lines: every order of the process names x every choice of `,` and `<` between them (names in and against alphabetical
+        order, the process of the other priority level first, in the middle, last)"""
+    import itertools
+
+    def truth(sym=(), prio=False):
+        return {"sym": set(sym), "chan": False, "prio": prio, "dyn": False}
+    out = []
+    restricting = [("x' == 2", "rate"), ("3 == y'", "rate"), ("xs[1]' == 2.5", "rate"), ("x <= 1.5", "cmp"), ("y < K", "cmp")]
+    benign = ["x <= 5", "y' == 0", "h' == 3", "i == 0", "(forall (k : int[0,1]) xs[k]' == 0)", "(forall (k : int[0,1]) xs[k]' == 1)",
+              "(forall (k : int[0,1]) xs[k] <= 7)"]
+    for atom, feat in restricting:
+        for nb in benign:
+            for atoms in ([atom, nb], [nb, atom], [nb, atom, "y < 7"], ["y < 7", nb, atom], [nb, "y < 7", atom]):
+                out.append((one(tmpl(inv=conj(r, atoms) if thorough else " && ".join(atoms))), truth([feat])))
+    for np_ in (2, 3, 4):
+        pool = r.sample(["A", "Ctl", "Gate", "M", "Train", "Z", "a", "m0", "z9", "_p"], np_)
+        decl = " ".join("%s = P();" % nm for nm in sorted(pool, key=lambda _: r.random()))
+        lines = [(perm, seps) for perm in itertools.permutations(pool) for seps in itertools.product([", ", " < "], repeat=np_ - 1)]
+        if np_ == 4 and not thorough:
+            lines = r.sample(lines, 40)
+        for perm, seps in lines:
+            system = "%s system %s%s;" % (decl, perm[0], "".join(sp + nm for sp, nm in zip(seps, perm[1:])))
+            out.append((one(system=system), truth(prio=" < " in seps)))
+    return out
+
+
 # ------------------------------------------------------------------------------------------------
 def run_models(ctx, exe, models):
     """-> list of dict(sym,sto,con,nerr,exc,abs) from the real library"""
@@ -360,8 +399,10 @@ def run(ctx):
         ctx.log("proof broken:", broken or log[-1500:])
     have_drv = os.path.exists(core.lean_exe("drv_c17")) and (ok or core.lake_build(["drv_c17"])[0])
     # 3+4 generated models ------------------------------------------------------------------------
-    n = 700 if not ctx.thorough else 12000
-    base = [gen_model(r) for _ in range(n)]
+    nrand = 700 if not ctx.thorough else 12000
+    base = [gen_model(r) for _ in range(nrand)]
+    base += directed_models(r, ctx.thorough)
+    n = len(base)
     models = [m for m, _ in base]
     truths = [t for _, t in base]
     nperm = n // 3
@@ -498,7 +539,7 @@ def run(ctx):
             ctx.proof_broken("correspondence:spec", "Spec on the extracted document and Spec by construction disagree on %d models; first: %s" % (
                 dis_spec, json.dumps(cov.get("spec_disagreement_samples", [])[:1])[:1500]), searched)
     cov.update({
-        "evaluations": len(allm), "generated_models": n, "accepted_models": accepted,
+        "evaluations": len(allm), "generated_models": n, "random_models": nrand, "directed_placement_models": n - nrand, "accepted_models": accepted,
         "correspondence_cases": accepted if have_drv else 0, "correspondence_disagreements": dis_verdict,
         "spec_cross_check_disagreements": dis_spec,
         "oracle_violations_in_random_models": len(viol), "oracle_violations_unexplained": unexplained,
